@@ -834,6 +834,74 @@ class Checker:
                    % (c.name, ', '.join(present)), qualname=c.name)
         rep.floor('R19.12', 'endpoint classes', len(classes), 2)
 
+    # -------------------------------------------------------------- R19.13
+    def r1913(self):
+        """An empty message is a message.  Whether a receive brought something is decided by comparing what the transport handed back with
+        None (identity or equality), in the endpoint receives and in the hub: a truthiness / length / emptiness test of the received value on
+        the way to `return None` makes a zero-length datagram (b'', '') a time-out - it reaches no forwarding destination and no sink although
+        it was received."""
+        from ..engine.paths import paths_of
+        rep = self.rep
+        rep.rule('R19.13', 'getData (every endpoint class, and the hub): a path that reports "nothing received" is selected only by None-comparisons of the '
+                           'received value, never by its truth value, length or content (an empty message is delivered like any other)')
+        base = self.model.cls('basic_robotics.interfaces.comms_object', 'CommsObject')
+        targets = [c.methods['getData'] for c in self.model.subclasses(base) if 'getData' in c.methods]
+        if 'getData' in self.comms.methods:
+            targets.append(self.comms.methods['getData'])
+        n = 0
+        for fi in targets:
+            params = set(fi.params)
+            rcv = set()
+            for a in ast.walk(fi.node):
+                if isinstance(a, ast.Name) and isinstance(a.ctx, ast.Store) and a.id not in params:
+                    rcv.add(a.id)
+            if not rcv:
+                continue
+            try:
+                ps = paths_of(fi.node, fi.params)
+            except RuntimeError as ex:
+                rep.unresolved_item('R19.13', fi.where, 'paths of %s not summarised (%s)' % (fi.qualname, ex))
+                continue
+            n += 1
+            bad = None
+            for pth in ps:
+                if pth.kind not in ('return', 'fall') or pth.ret not in (None, '<none>', 'None'):
+                    continue
+                for k, truth in pth.facts.items():
+                    srck = pth.fact_src.get(k, k)
+                    try:
+                        tree = ast.parse(srck, mode='eval').body
+                    except SyntaxError:
+                        continue
+                    # the path engine writes locals as the expressions they were bound to: what a call made on this path handed back is
+                    # (part of) the received value, like a local bound on the path that could not be expanded
+                    def about(t):
+                        return any((isinstance(x, ast.Name) and x.id in rcv) or isinstance(x, ast.Call) for x in ast.walk(t))
+                    if not about(tree):
+                        continue
+                    names = ({x.id for x in ast.walk(tree) if isinstance(x, ast.Name)} & rcv) or {norm_text(tree)[:60]}
+                    # accepted: conjunctions / negations of `<expr> is|is not|==|!= None` (and tests that mention no received local)
+                    def fine(t):
+                        if isinstance(t, ast.BoolOp):
+                            return all(fine(v) for v in t.values)
+                        if isinstance(t, ast.UnaryOp) and isinstance(t.op, ast.Not):
+                            return fine(t.operand)
+                        if not about(t):
+                            return True
+                        return (isinstance(t, ast.Compare) and len(t.ops) == 1 and isinstance(t.ops[0], (ast.Is, ast.IsNot, ast.Eq, ast.NotEq))
+                                and ((isinstance(t.comparators[0], ast.Constant) and t.comparators[0].value is None)
+                                     or (isinstance(t.left, ast.Constant) and t.left.value is None)))
+                    if not fine(tree):
+                        bad = (srck, truth, pth.ret_line, sorted(names)[0])
+                        break
+                if bad:
+                    break
+            rep.ob('R19.13', fi, '%s: "nothing received" is a None comparison' % fi.qualname, bad is None,
+                   ('%s returns None when `%s` is %s: `%s` holds what the transport handed back, so a received message for which that holds (a zero-length '
+                    'datagram, an empty string) is reported as a time-out - no forwarding destination and no sink sees it' % (fi.qualname, bad[0], bad[1], bad[3])) if bad else 'ok',
+                   line=bad[2] if bad else None)
+        rep.floor('R19.13', 'getData implementations examined', n, 2)
+
     def _table_refs(self, t):
         """tables written by storing to / mutating expression t (any receiver whose attribute is a table name,
         restricted to receivers that can be a Comms: `self` inside Comms, or any non-self receiver)."""
@@ -863,3 +931,4 @@ def check(model, rep):
     ck.r1910()
     ck.r1911()
     ck.r1912()
+    ck.r1913()
